@@ -133,6 +133,43 @@ theorem pageHeadersAt_chunk_zero (k : Codec) (c : Col) (es : PageEntries) (ess :
   pageHeadersAt_chunk_cover k c (es :: ess) file pre post o n hfile ho 1 (by omega) (by simp) (by simp; omega)
     (fun i h1 h2 => by omega)
 
+/-- a chunk is the concatenation of its pages: no page's bytes depend on the pages before it -/
+theorem chunkBytes_append (k : Codec) (c : Col) (es1 es2 : List PageEntries) :
+    chunkBytes k c (es1 ++ es2) = chunkBytes k c es1 ++ chunkBytes k c es2 := by
+  simp [chunkBytes]
+
+/-- **2b. `PageHeadersAtOffset` started at ANY page of a chunk**, not only its first: with `before` the
+pages of the chunk that precede the offset and `ess` the pages from the offset on, the call returns the
+headers of the shortest non-empty prefix of `ess` whose `num_values` reach `n`. -/
+theorem pageHeadersAt_page_cover (k : Codec) (c : Col) (before ess : List PageEntries) (file pre post : Bytes) (o n : Int)
+    (hfile : file = pre ++ chunkBytes k c (before ++ ess) ++ post)
+    (ho : o = ((pre.length + (chunkBytes k c before).length : Nat) : Int))
+    (j : Nat) (h1 : 1 ≤ j) (hj : j ≤ ess.length)
+    (hreach : n ≤ ((((ess.take j).map List.length).sum : Nat) : Int))
+    (hmin : ∀ i, 1 ≤ i → i < j → ((((ess.take i).map List.length).sum : Nat) : Int) < n) :
+    pageHeadersAt file o n = .ok ((ess.take j).map (phOf k c)) := by
+  apply pageHeadersAt_chunk_cover k c ess file (pre ++ chunkBytes k c before) post o n _ _ j h1 hj hreach hmin
+  · rw [hfile, chunkBytes_append]; simp only [List.append_assoc]
+  · rw [ho, List.length_append]
+
+/-- started at any page with `n ≤ 0`: exactly that page's header -/
+theorem pageHeadersAt_page_zero (k : Codec) (c : Col) (before : List PageEntries) (es : PageEntries) (ess : List PageEntries)
+    (file pre post : Bytes) (o n : Int)
+    (hfile : file = pre ++ chunkBytes k c (before ++ es :: ess) ++ post)
+    (ho : o = ((pre.length + (chunkBytes k c before).length : Nat) : Int)) (hn : n ≤ 0) :
+    pageHeadersAt file o n = .ok [phOf k c es] :=
+  pageHeadersAt_page_cover k c before (es :: ess) file pre post o n hfile ho 1 (by omega) (by simp) (by simp; omega)
+    (fun i h1 h2 => by omega)
+
+/-- non-vacuity: started at the second of three pages (1, 2 and 1 values) and asked for 3 values, the call
+returns the headers of pages two and three -/
+example (k : Codec) (c : Col) (e : Entry Bytes) :
+    pageHeadersAt (chunkBytes k c ([[e]] ++ [[e, e], [e]])) (((chunkBytes k c [[e]]).length : Nat) : Int) 3 =
+      .ok ([[e, e], [e]].map (phOf k c)) :=
+  pageHeadersAt_page_cover k c [[e]] [[e, e], [e]] _ [] [] _ 3 (by simp) (by simp) 2 (by omega) (by simp) (by simp)
+    (fun i h1 h2 => by have : i = 1 := by omega
+                       subst this; simp)
+
 /-- **3. `PageHeaders` lists every data page of the file.**  For the file of every `Close`d history
 whose batches are `BatchOK`, and the footer `ReadMetaData` returns for it, the call returns
 `fileHdrs`: the header of every page of every column chunk of every row group, in file order. -/
